@@ -26,8 +26,17 @@ PROP = {
         "quick": {"gen": [(2500, 30)], "enum": [(2,)]},
         "thorough": {"gen": [(30000, 45)], "enum": [(3,)]},
         "timeout": 1500,
+    }, {
+        # datagram reads woken up with nothing to read (an earlier handler of the same poll batch took the datagram): the read
+        # stays in flight with its buffer; needs handler programs, which only the event-loop component has (scenario scripts;
+        # only the datagram-boundary clause of its driver is attributed to C12)
+        "component": "loop",
+        "quick": {"enum": [["scenarios"]]},
+        "thorough": {"enum": [["scenarios"]]},
+        "timeout": 1500,
     }],
     "direct": [{"component": "mcast", "timeout": 300}],
+    "keys": ["mcast.*", "loop.datagram-boundary"],
     "rule": "scripts = 2-8 real sockets on one IO context: sonic.NewPacketConn (bind forms 127.0.0.1:0, :0, empty), "
             "multicast.NewUDPPeer (bind forms :P, :0, 192.0.2.2:P, 192.0.2.2:0, 127.0.0.1:0, <group>:P, <group>:0; receivers share the "
             "port P with SO_REUSEPORT), harness raw sockets (plain receivers on 127.0.0.1 / 192.0.2.2 and an IP_TRANSPARENT sender bound "
